@@ -802,7 +802,10 @@ static inline long cmb_random_dice(const long a, const long b)
     cmb_assert (a < b);
 
     const double x = (double)(b - a + 1) * cmb_random();
-    return (long)(floor((double)a + x));
+    const long r = a + (long)floor(x);
+
+    /* The product may round up to b - a + 1 when the draw is close to one */
+    return (r <= b) ? r : b;
 }
 
 /**
